@@ -44,7 +44,14 @@ impl<'a> ResourceRecordManager<'a> {
         let exp_info = ExpirationInfo::new(ttl);
         match self.resources.get_mut(&key) {
             Some(resources) => {
-                resources.insert(resource, ResourceRecordType::Cached(exp_info));
+                // a record registered locally stays authoritative, it must not start to expire
+                // because a copy of it was heard on the network
+                if !matches!(
+                    resources.get(&resource),
+                    Some(ResourceRecordType::Authoritative)
+                ) {
+                    resources.insert(resource, ResourceRecordType::Cached(exp_info));
+                }
             }
             None => {
                 let mut resources = HashMap::new();
